@@ -109,5 +109,7 @@ Definition write_sfnt (version : list Z) (numTables : Z) (ts : list (list Z * li
         | Some h =>
           let checksum := (sumz (map e_ck es) + calcChecksum directory) mod 4294967296 in
           let adj := (2981146554 - checksum) mod 4294967296 in      (* 0xB1B0AFBA *)
-          Ok (write_at (e_off h + 8) (pack_be 4 adj) file0)
+          (* writeMasterChecksum (as repaired, F23): a head table without room for checkSumAdjustment is left as it is *)
+          if (e_len h <? 12)%nat then Ok file0
+          else Ok (write_at (e_off h + 8) (pack_be 4 adj) file0)
         end.
